@@ -56,7 +56,9 @@ REQUIRED_COUNTERS = ['tables_compared', 'scripted_generate_calls',
                      'models_sharing_label_and_code_objects',
                      'tables_from_integer_typed_parameters',
                      'tables_on_user_defined_codes',
-                     'bposd_priors_in_force_after_rate_change']
+                     'bposd_priors_in_force_after_rate_change',
+                     'one_sector_matching_setups',
+                     'generate_calls_with_scalar_only_rng']
 
 OPTIONS = 'IXYZ'
 
@@ -133,6 +135,16 @@ class ScriptedRNG:
 
     def __getattr__(self, name):
         raise AssertionError(f'scripted rng: unexpected use of rng.{name}')
+
+
+class ScalarOnlyRNG(ScriptedRNG):
+    """An rng that only serves one variate per call (random.Random, a
+    user's scripted source): asking it for a vector is a TypeError."""
+
+    def random(self):
+        v = self.seq[self.used]
+        self.used += 1
+        return v
 
 
 def ulp(x):
@@ -225,8 +237,10 @@ def check_sampling(out, em, code, G, desc, mech, rng, nrandom):
     seqs = [[u] * n for u in us]
     for _ in range(nrandom):
         seqs.append(rng.random(n).tolist())
-    for seq in seqs:
-        srng = ScriptedRNG(seq)
+    for si, seq in enumerate(seqs):
+        srng = ScriptedRNG(seq) if si % 2 == 0 else ScalarOnlyRNG(seq)
+        if si % 2:
+            out.count('generate_calls_with_scalar_only_rng')
         try:
             e = np.asarray(em.generate(code, desc['p'], rng=srng))
         except AssertionError as ex:
@@ -381,6 +395,17 @@ def check_priors(out, em, code, cls, G, desc, mech, rng):
             if len(ev) != 2:
                 out.violation(f'{mech}/matching-proxy',
                               f'{len(ev)} Matching objects built', desc)
+            # the one-sector set-ups get the weights of their own sector
+            for et in ('X', 'Z'):
+                rec.events.clear()
+                MatchingDecoder(code, em, p, error_type=et)
+                ev1 = [e for e in rec.events if e[0] == 'matching']
+                out.count('one_sector_matching_setups')
+                if len(ev1) != 1:
+                    out.violation(f'{mech}/matching-proxy/error_type-{et}',
+                                  f'{len(ev1)} Matching objects built for '
+                                  f'error_type={et!r}', desc)
+                ev += ev1
             for _, H, w in ev:
                 out.count('matching_weight_vectors')
                 if same_matrix(H, code.Hz) and not same_matrix(H, code.Hx):
